@@ -423,6 +423,8 @@ def rule_R8(piece, src, start, end, loops, loop_specs, r9=False):
         piece.replace(start + m.start(), start + m.end(), 'verif_div_all(&mut %s, %s);' % (m.group(1), d), 'R8:div_all')
     for m in re.finditer(r'(\w+)\.clone_from\(&(\w+)\)', seg):
         piece.replace(start + m.start(), start + m.end(), 'verif_clone_from(&mut %s, &%s)' % (m.group(1), m.group(2)), 'R8:clone_from')
+    for m in re.finditer(r'([\w\.]+(?:\(\))?)\.join\(&([\w\.]+)\) \+ "\\n"', seg):
+        piece.replace(start + m.start(), start + m.end(), 'verif_join_nl(&%s, &%s)' % (m.group(1), m.group(2)), 'R8:join_nl')
     for m in re.finditer(r'Vec::from_iter\((\w+)\)', seg):
         piece.replace(start + m.start(), start + m.end(), 'verif_vec_from_set(%s)' % m.group(1), 'R8:vec_from_set')
     for m in re.finditer(r'(\[\s*(?:\([^\]]*?)\])\s*\.iter\(\)\s*\.cloned\(\)\s*\.collect\(\)', seg, re.S):
